@@ -94,9 +94,15 @@ Definition mismatches_conc := mismatches ok_conc.
 (* as [rcase], but the calls may run under a deadline: when it passes is not observable, so any moment is
    accepted (the deadline stream is k times "not yet", then "passed" for ever); without Metadata.Timeout the
    stream is empty. A leaderless answer makes the refresh retry with the advertised brokers as known brokers,
-   which `any` again meets in some order. *)
+   which `any` meets in some order — a fresh one on every re-entry (Go map iteration), so one order per retry
+   is chosen: [adv_choices] lists every assignment of an order to each number of retries left. *)
 Definition dl_at (k : nat) : list bool := repeat false k ++ repeat true 24.
 Definition dl_choices (deadline : bool) : list (list bool) := if deadline then map dl_at (seq 0 14) else [[]].
+
+Fixpoint adv_lists (n : nat) (ps : list (list Z)) : list (list (list Z)) :=
+  match n with O => [[]] | S k => flat_map (fun p => map (cons p) (adv_lists k ps)) ps end.
+Definition adv_choices (attempts : nat) (brokers : list Z) : list (nat -> list Z) :=
+  map (fun l a => nth a l []) (adv_lists attempts (perms brokers)).
 
 Fixpoint run_rounds_d (deadline : bool) (attempts : nat) (brokers unreachable : list Z) (c : cands) (rs : list round) : bool :=
   match rs with
@@ -111,7 +117,7 @@ Fixpoint run_rounds_d (deadline : bool) (attempts : nat) (brokers unreachable : 
       | RSuccess b => rd_ok r && run_rounds_d deadline attempts brokers unreachable {| seeds := seeds c1; dead := dead c1; known := brokers |} rest
       | ROutOfBrokers => negb (rd_ok r) && run_rounds_d deadline attempts brokers unreachable c1 rest
       | RAuth _ => false
-      end) (dl_choices deadline)) (perms brokers)) (perms (known c))
+      end) (dl_choices deadline)) (adv_choices attempts brokers)) (perms (known c))
   end.
 
 Definition ok_dl (c : rcase) : bool :=
